@@ -290,6 +290,9 @@ def directed_c04():
     c = mk(far, {"L0": 0, "L1": 1101, "Label1": 1102 + 1023})
     c["renders"] = [0, 5]
     D.append(c)
+    # identifiers that differ only in case, used by otherwise identical lines
+    dcase = [{"name": "Val", "type": "word", "vals": [11]}, {"name": "val", "type": "word", "vals": [22]}]
+    D.append(mk([{"k": "nop"}, {"k": "brl", "m": "beq", "rs1": 0, "rs2": 0, "label": "Loop", "off": None}, {"k": "nop"}, {"k": "brl", "m": "beq", "rs1": 0, "rs2": 0, "label": "loop", "off": None}, {"k": "ldv", "m": "lw", "rd": 5, "var": "Val", "idx": None}, {"k": "ldv", "m": "lw", "rd": 5, "var": "val", "idx": None}, {"k": "jall", "m": "jal", "rd": 0, "label": "Loop", "off": None}, {"k": "jall", "m": "jal", "rd": 0, "label": "loop", "off": None}], {"Loop": 0, "loop": 2}, dcase))
     D.append(mk([{"k": "li", "rd": 5, "c": -1}, {"k": "li", "rd": 5, "c": 0xFFFFF800}, {"k": "mv", "rd": 3, "rs": 5}, {"k": "jaln", "m": "jal", "rd": 1, "abs": 0}, {"k": "brn", "m": "bgeu", "rs1": 1, "rs2": 2, "imm": -8}, {"k": "ecall"}], {"L0": 6, "Label1": 6, "_x2y": 3}))
     return D
 
